@@ -491,24 +491,30 @@ Proof.
 Qed.
 
 (* the specification lookup on the encoder's output *)
+Lemma S_groups12_step n a b g rest c :
+  a < u32 -> b < u32 -> g < u16 ->
+  S_groups12 (S n) (enc_seg12 (a, b, g) ++ rest) c
+  = if (a <=? c) && (c <=? b) then g + (c - a) else S_groups12 n rest c.
+Proof.
+  intros Ha Hb Hg. unfold enc_seg12, be32, be16. cbn [app S_groups12 skipn]. unfold rd32.
+  replace ((a / 16777216) mod 256 * 16777216 + (a / 65536) mod 256 * 65536 + (a / 256) mod 256 * 256 + a mod 256)
+    with a by (unfold u32 in *; lia).
+  replace ((b / 16777216) mod 256 * 16777216 + (b / 65536) mod 256 * 65536 + (b / 256) mod 256 * 256 + b mod 256)
+    with b by (unfold u32 in *; lia).
+  replace (0 * 16777216 + 0 * 65536 + (g / 256) mod 256 * 256 + g mod 256)
+    with g by (unfold u16 in *; lia).
+  reflexivity.
+Qed.
+
 Lemma S_groups12_enc ss : forall first pe c,
   chain first pe ss ->
   S_groups12 (length ss) (flat_map enc_seg12 ss) c = lookup (flat_map expand12 ss) c.
 Proof.
   induction ss as [|[[a b] g] r IH]; intros first pe c Hc; [reflexivity|].
   cbn [chain] in Hc. destruct Hc as (Hab & Hb & Hg & Hp & Hc).
-  cbn [length flat_map S_groups12].
-  unfold enc_seg12 at 1 2 3 4. unfold be32, be16. cbn [app skipn].
-  assert (E1 : rd32 ((a / 16777216) mod 256 :: (a / 65536) mod 256 :: (a / 256) mod 256 :: a mod 256
-                     :: (b / 16777216) mod 256 :: (b / 65536) mod 256 :: (b / 256) mod 256 :: b mod 256
-                     :: 0 :: 0 :: (g / 256) mod 256 :: g mod 256 :: flat_map enc_seg12 r) = a)
-    by (unfold rd32, u32 in *; lia).
-  assert (E2 : rd32 ((b / 16777216) mod 256 :: (b / 65536) mod 256 :: (b / 256) mod 256 :: b mod 256
-                     :: 0 :: 0 :: (g / 256) mod 256 :: g mod 256 :: flat_map enc_seg12 r) = b)
-    by (unfold rd32, u32 in *; lia).
-  assert (E3 : rd32 (0 :: 0 :: (g / 256) mod 256 :: g mod 256 :: flat_map enc_seg12 r) = g)
-    by (unfold rd32; lia).
-  rewrite E1, E2, E3. rewrite lookup_app.
+  cbn [length flat_map].
+  rewrite S_groups12_step by (unfold u32, u16 in *; lia).
+  rewrite lookup_app.
   unfold expand12 at 1 2.
   pose proof (lookup_expand_acc (N.to_nat (b - a + 1)) a g [] c) as HL.
   pose proof (has_key_expand_acc (N.to_nat (b - a + 1)) a g [] c) as HK.
